@@ -90,7 +90,9 @@ def gen_case(rng):
                               ["e_in_tuple", sorted(rng.sample(range(1, 7), rng.randint(2, 5)))],
                               # the element's condition written inside a sub-query over the already bound parent
                               ["en_in_subquery", rng.choice([">", "<=", "!=", ">="]), rng.randint(1, 5)]]),
-            "atoms": atoms, "sel": sel, "caching": rng.random() < 0.7}
+            "atoms": atoms, "sel": sel, "caching": rng.random() < 0.7,
+            # the element spelled "an item of the parent": a nested description that selects the flatten and has no condition
+            "e_spelling": "an_entity_flatten" if rng.random() < 0.2 else "flatten"}
 
 
 def build_world(w, perm=None):
@@ -178,6 +180,8 @@ def build(case, es, ps, quant="an"):
     with symbolic_mode():
         p = let(Par, ps)
         e = flatten(p.items)
+        if case.get("e_spelling") == "an_entity_flatten":
+            e = an(entity(e))
         d = let(E, es)
 
         def sym(a):
@@ -283,6 +287,7 @@ def check(c, ctx):
     """feature-interaction query (eqlmon/ix.py): flatten + nested an()/the() + concatenate + for_all + predicates in one query"""
     from collections import Counter
     ctx.cls("cls:feature_interaction_query")
+    ctx.cls("cls:ix:element_spelled:" + c.get("e_spelling", "flatten"))
     for t in tags(c):
         ctx.cls("cls:ix:" + t)
     try:
